@@ -52,7 +52,10 @@ class Conclusion(SymbolicExpression[T], ABC):
         return f"{self.__class__.__name__}({self.var._var_._name_}, {value_str})"
 
     def _reset_cache_(self) -> None:
-        ...
+        # a variable that only a conclusion mentions is below no condition: its per-evaluation state (the domain a
+        # variable without one took from the registry of instances) is reset from here.
+        for variable in self.value._all_variable_instances_:
+            variable._reset_only_my_cache_()
 
     @property
     def _plot_color_(self) -> ColorLegend:
